@@ -42,29 +42,19 @@ OPAQUE = ""
 # ---------------------------------------------------------------------------------------------
 # known-finding classes: narrow predicates over the INPUT (document, format, channel)
 # ---------------------------------------------------------------------------------------------
-def kf_section_skipped(doc, fmt, channel):
-    """F24: the document contains a Section node and the format is json / yaml / markdown."""
-    return fmt != "octave" and PD.has_section(doc)
-
-
 def kf_duplicate_keys(doc, fmt, channel):
-    """F25: duplicate sibling keys (META counts at top level) and the format is json / yaml."""
+    """F25: duplicate sibling keys (Assignment / Block / Section names; META counts at top level) and the format is json / yaml."""
     return fmt in ("json", "yaml") and PD.has_duplicate_siblings(doc)
 
 
-def kf_holographic(doc, fmt, channel):
-    """F33 (remainder after fix 45b8e9f, which converts holographic values for json / yaml): a holographic value and the
-    format is markdown (`_format_markdown_value` / the CLI f-string still print the dataclass repr)."""
-    return fmt == "markdown" and PD.has_kind(doc, "holo")
-
-
 def kf_md_bullet_after_subblock(doc, fmt, channel):
-    """F50: markdown, and some block has an Assignment child after a Block child."""
+    """F50: markdown, and some block / section has an Assignment child after a Block / Section child."""
     return fmt == "markdown" and PD.has_assign_after_block(doc)
 
 
 def kf_cli_value_passthrough(doc, fmt, channel):
-    """F51: CLI copy of the converters: literal zone in json / yaml, any non-scalar value in markdown."""
+    """F51: CLI copy of the converters: literal zone in json / yaml, any non-scalar value (list, inline map, zone, holographic,
+    nested META block) in markdown."""
     if not channel.startswith("cli"):
         return False
     if fmt in ("json", "yaml"):
@@ -78,16 +68,13 @@ def kf_meta_nested_block(doc, fmt, channel):
     return fmt == "markdown" and PD.has_meta_nested(doc)
 
 
-CLASSES = {f.__name__: f for f in (kf_section_skipped, kf_duplicate_keys, kf_holographic, kf_md_bullet_after_subblock,
-                                   kf_cli_value_passthrough, kf_meta_nested_block)}
+CLASSES = {f.__name__: f for f in (kf_duplicate_keys, kf_md_bullet_after_subblock, kf_cli_value_passthrough, kf_meta_nested_block)}
 # classes whose deviation is exactly predictable: the rendering must then equal the adjusted expectation
-ADJUSTABLE = {"kf_section_skipped", "kf_duplicate_keys"}
+ADJUSTABLE = {"kf_duplicate_keys"}
 
 
 def adjust(model, fmt, classes):
     m = model
-    if "kf_section_skipped" in classes:
-        m = PD.drop_sections(m)
     if "kf_duplicate_keys" in classes:
         m = PD.collapse_duplicates(m)
     return m
